@@ -227,5 +227,5 @@ def oracle(h, stats):
 
 PARTS = [
     Part("history", strategy=history, oracle=oracle, nontrivial=is_nontrivial,
-         n={"quick": 1500, "thorough": 40000}),
+         n={"quick": 6000, "thorough": 40000}),
 ]
